@@ -25,8 +25,9 @@ use tonic::{Code, Status};
 use vcommon::body::{noop_waker, spin, Ev, ScriptBody};
 use vcommon::*;
 
+mod ext;
 const IMPORTS: &str =
-    "From Verif Require Import Lib.Bytes Lib.Obs Lib.HeaderMap Model.Status Model.Encoder.";
+    "From Verif Require Import Lib.Bytes Lib.Obs Lib.HeaderMap Model.Status Model.Encoder Model.EncoderExt.";
 const EXTRA_POLLS: usize = 5;
 const ENC_ERR_PREFIX: &str = "Error encoding: ";
 const ENC_ERR_PREFIX_PCT: &[u8] = b"Error%20encoding:%20";
@@ -643,12 +644,23 @@ struct PCase {
     nontrivial: bool,
     /// (wire bytes, announced encoding, expected messages, expected flag)
     wire: Option<(Vec<u8>, Option<Enc>, Vec<Vec<u8>>, Option<u8>)>,
+    /// Some: the messages are protobuf (ext::PMsg); the Python judge decodes the wire format itself
+    /// and compares the fields with these (then `wire.2` is not used)
+    proto: Option<Vec<Value>>,
+}
+/// what the Python judge reported over the whole run (goes into the harness summary)
+#[derive(Default)]
+struct PyStats {
+    judged: u64,
+    inflated_messages: u64,
+    proto_messages: u64,
 }
 struct Pend {
     cases: Vec<PCase>,
 }
 impl Pend {
-    fn flush(self, out: &mut Out, dir: &str) {
+    fn flush(self, out: &mut Out, dir: &str) -> PyStats {
+        let mut stats = PyStats::default();
         let inp = format!("{}/wire_in.jsonl", dir);
         let outp = format!("{}/wire_out.jsonl", dir);
         {
@@ -659,8 +671,12 @@ impl Pend {
                     writeln!(
                         f,
                         "{}",
-                        json!({"id": i, "body": hex(w), "encoding": e.map(|e| e.name()),
-                               "messages": ms.iter().map(|m| hex(m)).collect::<Vec<_>>(), "expect_flag": flag})
+                        match &c.proto {
+                            None => json!({"id": i, "body": hex(w), "encoding": e.map(|e| e.name()),
+                               "messages": ms.iter().map(|m| hex(m)).collect::<Vec<_>>(), "expect_flag": flag}),
+                            Some(pm) => json!({"id": i, "body": hex(w), "encoding": e.map(|e| e.name()),
+                               "proto": pm, "expect_flag": flag}),
+                        }
                     )
                     .unwrap();
                 }
@@ -675,6 +691,9 @@ impl Pend {
                 let v: Value = serde_json::from_str(l).unwrap();
                 let id = v["id"].as_u64().unwrap() as usize;
                 verdict.insert(id, if v["ok"].as_bool() == Some(true) { None } else { Some(v["why"].as_str().unwrap_or("?").to_string()) });
+                stats.judged += 1;
+                stats.inflated_messages += v["inflated"].as_u64().unwrap_or(0);
+                stats.proto_messages += v["proto_decoded"].as_u64().unwrap_or(0);
             }
         }
         for (i, c) in self.cases.into_iter().enumerate() {
@@ -687,6 +706,7 @@ impl Pend {
             }
             out.push(Case { kind: c.kind, input: c.input, model: c.model, impl_obs: c.obs, oracle, nontrivial: c.nontrivial });
         }
+        stats
     }
 }
 
@@ -717,7 +737,7 @@ fn case_body(p: &mut Pend, out: &mut Out, kind: &str, server: bool, cfg: &Cfg, s
     let wire = data_of(&obs);
     let tbl = compress_table(cfg, src, &wire);
     let model = format!(
-        "obs_encode {} {} {} {} {}",
+        "obs_encode_x {} {} {} {} {}",
         coq_pairs(&tbl),
         cfg.coq(),
         if server { "Server" } else { "Client" },
@@ -744,6 +764,7 @@ fn case_body(p: &mut Pend, out: &mut Out, kind: &str, server: bool, cfg: &Cfg, s
         oracle,
         nontrivial: n_ok >= 2 || (n_ok >= 1 && want.code != 0),
         wire: Some((wire, cfg.comp, want.messages, Some(cfg.eff().is_some() as u8))),
+        proto: None,
     });
 }
 fn bucket(n: usize) -> String {
@@ -798,7 +819,7 @@ fn uri_parts_coq(u: &http::Uri) -> String {
         "(mkUri {} {} {})",
         coq_opt(&p.scheme, |s| coq_bytes(s.as_str().as_bytes())),
         coq_opt(&p.authority, |s| coq_bytes(s.as_str().as_bytes())),
-        coq_opt(&p.path_and_query, |s| coq_bytes(s.as_str().as_bytes()))
+        coq_opt(&p.path_and_query, |s| ext::coq_bytes_seg(s.as_str().as_bytes()))
     )
 }
 fn uri_tr(u: &http::Uri) -> Tr {
@@ -806,7 +827,7 @@ fn uri_tr(u: &http::Uri) -> Tr {
     Tr::L(vec![
         Tr::opt(p.scheme.map(|s| Tr::s(s.as_str()))),
         Tr::opt(p.authority.map(|s| Tr::s(s.as_str()))),
-        Tr::opt(p.path_and_query.map(|s| Tr::s(s.as_str()))),
+        Tr::opt(p.path_and_query.map(|s| ext::bs_tr(s.as_str().as_bytes()))),
     ])
 }
 fn version_n(v: http::Version) -> u32 {
@@ -852,6 +873,23 @@ fn expected_target(origin: &Option<String>, path: &str) -> Option<String> {
         return Some(path.to_string());
     }
     Some(format!("{}{}", p, path))
+}
+/// which of prepare_request's two `expect`s fired: 95 = "must form valid path_and_query",
+/// 99 = "path_and_query only is valid Uri" (or anything else)
+fn panic_site(msg: &str) -> u8 {
+    if msg.contains("must form valid path_and_query") {
+        95
+    } else {
+        99
+    }
+}
+/// http cannot hold a path-and-query longer than this
+const HTTP_URI_MAX_LEN: usize = 65534;
+fn panic_acceptable(target: &Option<String>) -> bool {
+    match target {
+        None => true,
+        Some(t) => t.len() > HTTP_URI_MAX_LEN,
+    }
 }
 fn case_request(p: &mut Pend, out: &mut Out, kind: &str, rc: &ReqCase) {
     // the model takes the enabled set in slot order (EnabledCompressionEncodings::enable ignores
@@ -939,7 +977,7 @@ fn case_request(p: &mut Pend, out: &mut Out, kind: &str, rc: &ReqCase) {
     let wire_seen: Vec<u8> = captured.as_ref().map(|(_, d)| data_of(&d.obs)).unwrap_or_default();
     let tbl = compress_table(&cfg, &src, &wire_seen);
     let model = format!(
-        "obs_client_call {} (mkClient {} {} {} {} {} {}) {} {} {} {}",
+        "obs_client_call_x {} (mkClient {} {} {} {} {} {}) {} {} {} {}",
         coq_pairs(&tbl),
         uri_parts_coq(&origin),
         coq_opt(&rc.send, |e| e.coq().to_string()),
@@ -955,9 +993,10 @@ fn case_request(p: &mut Pend, out: &mut Out, kind: &str, rc: &ReqCase) {
     let target = expected_target(&rc.origin, path.as_str());
     let (obs, oracle, wire) = match (res, captured) {
         (Err(pn), _) => (
-            Tr::L(vec![Tr::L(vec![Tr::n(99u8)])]),
-            // a panic is only acceptable for an origin no request target can be built from
-            if target.is_none() { None } else { Some(format!("panic preparing the request: {}", pn)) },
+            Tr::L(vec![Tr::L(vec![Tr::n(panic_site(&pn))])]),
+            // a panic is only acceptable for an origin no request target can be built from, or
+            // when the exact target is longer than http can represent (65534 bytes)
+            if panic_acceptable(&target) { None } else { Some(format!("panic preparing the request: {}", pn)) },
             None,
         ),
         (Ok(Err(())), _) => (Tr::L(vec![Tr::n(98u8)]), Some("the call hangs".into()), None),
@@ -965,7 +1004,10 @@ fn case_request(p: &mut Pend, out: &mut Out, kind: &str, rc: &ReqCase) {
         (Ok(Ok(())), Some((parts, mut d))) => {
             // (the one-message shapes wrap the message in tokio_stream::once inside tonic: not observable)
             d.after_end = polled_after_end.load(Ordering::SeqCst);
-            let mut why = judge_request_head(&parts, &origin, &target, rc.send).or_else(|| judge_source(&d));
+            // the property speaks of "the method's /package.Service/Method path": for a method path
+            // that does not even start with '/' the target is tied to the model but not judged
+            let in_domain = path.as_str().starts_with('/');
+            let mut why = judge_request_head(&parts, &origin, &target, in_domain, rc.send).or_else(|| judge_source(&d));
             if why.is_none() {
                 why = judge_frames(false, &d.obs, d.ended, &want);
             }
@@ -987,7 +1029,7 @@ fn case_request(p: &mut Pend, out: &mut Out, kind: &str, rc: &ReqCase) {
             )
         }
     };
-    out.hist("request.origin", rc.origin.clone().unwrap_or("<default>".into()));
+    out.hist("request.origin", rc.origin.as_ref().map(|o| if o.len() > 80 { format!("{}... ({} bytes)", &o[..24], o.len()) } else { o.clone() }).unwrap_or("<default>".into()));
     out.hist("request.shape", rc.shape);
     out.hist("request.send", rc.send.map(|e| e.name()).unwrap_or("identity"));
     p.cases.push(PCase {
@@ -1002,10 +1044,11 @@ fn case_request(p: &mut Pend, out: &mut Out, kind: &str, rc: &ReqCase) {
         oracle,
         nontrivial: rc.origin.is_some() || !rc.md.is_empty() || rc.send.is_some(),
         wire,
+        proto: None,
     });
 }
 /// "an HTTP/2 POST to the method's path with content-type application/grpc and te: trailers"
-fn judge_request_head(parts: &http::request::Parts, origin: &http::Uri, target: &Option<String>, send: Option<Enc>) -> Option<String> {
+fn judge_request_head(parts: &http::request::Parts, origin: &http::Uri, target: &Option<String>, judge_target: bool, send: Option<Enc>) -> Option<String> {
     if parts.method != http::Method::POST {
         return Some(format!("method {}", parts.method));
     }
@@ -1015,7 +1058,8 @@ fn judge_request_head(parts: &http::request::Parts, origin: &http::Uri, target: 
     let pq = parts.uri.path_and_query().map(|p| p.as_str()).unwrap_or("");
     match target {
         None => return Some(format!("a request ({:?}) was sent for an origin without scheme", pq)),
-        Some(t) if t != pq => return Some(format!("request target {:?}, expected exactly {:?} (origin path ++ method path)", pq, t)),
+        Some(t) if t.len() > HTTP_URI_MAX_LEN => return Some("a request was sent although the exact target does not fit a path-and-query".into()),
+        Some(t) if judge_target && t != pq => return Some(format!("request target {:?}, expected exactly {:?} (origin path ++ method path)", pq, t)),
         _ => {}
     }
     if parts.uri.scheme() != origin.scheme() || parts.uri.authority() != origin.authority() {
@@ -1249,7 +1293,7 @@ fn case_response(p: &mut Pend, out: &mut Out, kind: &str, rc: &RespCase) {
     let wire_seen: Vec<u8> = dr_opt.as_ref().map(|d| data_of(&d.obs)).unwrap_or_default();
     let tbl = if err_code.is_none() { compress_table(&cfg, &src, &wire_seen) } else { vec![] };
     let model = format!(
-        "obs_server_call {} (mkServer {} {} {} {} {}) {} {} {} {} {} {}",
+        "obs_server_call_x {} (mkServer {} {} {} {} {}) {} {} {} {} {} {}",
         coq_pairs(&tbl),
         coq_list(&dedup(&rc.send), |e| e.coq().to_string()),
         coq_list(&dedup(&rc.accept), |e| e.coq().to_string()),
@@ -1343,7 +1387,7 @@ fn case_response(p: &mut Pend, out: &mut Out, kind: &str, rc: &RespCase) {
             Handler::Stream(Ok((md, evs, d))) => json!({"stream_ok": {"md": mdj(md), "src": evs.iter().map(sev_json).collect::<Vec<_>>(), "disable": d}}),
             Handler::Stream(Err(s)) => json!({"stream_err": s.json()}),
         }});
-    p.cases.push(PCase { kind: kind.to_string(), input, model, obs, oracle, nontrivial: true, wire });
+    p.cases.push(PCase { kind: kind.to_string(), input, model, obs, oracle, nontrivial: true, wire, proto: None });
 }
 
 // ------------------------------------------------------------------ kind: channel (AddOrigin + UserAgent + hyper)
@@ -1501,7 +1545,7 @@ fn case_channel(p: &mut Pend, out: &mut Out, kind: &str, cc: &ChanCase) {
         }
     }
     let model = format!(
-        "obs_channel_call {} (mkClient {} {} {} {} {} {}) {} {} {} {} {} {}",
+        "obs_channel_call_x {} (mkClient {} {} {} {} {} {}) {} {} {} {} {} {}",
         coq_pairs(&tbl),
         uri_parts_coq(&grpc_origin),
         coq_opt(&rc.send, |e| e.coq().to_string()),
@@ -1518,7 +1562,7 @@ fn case_channel(p: &mut Pend, out: &mut Out, kind: &str, cc: &ChanCase) {
     );
     let target = expected_target(&rc.origin, path.as_str());
     let (obs, oracle, wire) = match res {
-        Err(pn) => (Tr::L(vec![Tr::L(vec![Tr::n(99u8)])]), if target.is_none() { None } else { Some(format!("panic: {}", pn)) }, None),
+        Err(pn) => (Tr::L(vec![Tr::L(vec![Tr::n(panic_site(&pn))])]), if panic_acceptable(&target) { None } else { Some(format!("panic: {}", pn)) }, None),
         Ok(Err(e)) => {
             // the only failure the layers may produce: an endpoint origin without scheme / authority
             let lp = layer_origin.clone().into_parts();
@@ -1586,6 +1630,7 @@ fn case_channel(p: &mut Pend, out: &mut Out, kind: &str, cc: &ChanCase) {
         oracle,
         nontrivial: true,
         wire,
+        proto: None,
     });
 }
 const ENDPOINTS: &[&str] = &["http://example.com", "http://h:1234", "https://secure.example:8443", "http://h/api", "http://[::1]:50051"];
@@ -1771,6 +1816,11 @@ const ORIGINS: &[Option<&str>] = &[
     Some("http://h/api/"),
     Some("http://h/api/v1?x=1"),
     Some("http://h/?q=1"),
+    Some("http://h/api/?q=1"),
+    Some("http://h/api?q=1"),
+    Some("http://h/a/b/"),
+    Some("http://h//"),
+    Some("*"), // asterisk form: "*" ++ method path is no path-and-query
     Some("http://[::1]:50051"),
     Some("/prefix"),
     Some("/prefix?k=v"),
@@ -1779,6 +1829,9 @@ const ORIGINS: &[Option<&str>] = &[
     Some("localhost"),
 ];
 const PATHS: &[&str] = &["/pkg.Svc/Method", "/a.B/C", "/grpc.health.v1.Health/Check", "/S/M?x=1", "/x"];
+/// method paths no generated client uses (outside the property: "the method's /package.Service/Method
+/// path"); they tie Display-for-PathAndQuery in the model (a leading '/' is supplied when missing)
+const ODD_PATHS: &[&str] = &["?x=1", "*", "/", "/S/M#frag", "//S/M"];
 fn gen_accept(r: &mut Rng) -> Vec<Enc> {
     let mut v = vec![];
     for _ in 0..r.below(4) {
@@ -1986,13 +2039,79 @@ fn corpus(p: &mut Pend, out: &mut Out) {
     }
     let rc = RespCase { max: Some(50), ..base(Handler::Unary(Ok((vec![], over.clone(), false)))) };
     case_response(p, out, "corpus.response", &rc);
+    corpus_ext(p, out);
+}
+/// corpus of audit 2 (kept after the older corpus so that the evidence samples stay small)
+fn corpus_ext(p: &mut Pend, out: &mut Out) {
+    let small = vec![1u8, 2, 3];
+    let req = |origin: &str, path: &str, shape: u8| ReqCase { origin: Some(origin.to_string()), path: path.to_string(), send: None, accept: vec![], md: vec![], max: None, bs: None, shape, msgs: vec![small.clone()] };
+    // N-C03-1: a prefix is used verbatim, with or without a trailing slash, whatever the origin's query
+    for o in ["http://h/api/", "http://h/api/?q=1", "http://h/api?q=1", "/api/", "http://h/a/b/", "http://h//", "http://h//?x"] {
+        for (shape, path) in [(0u8, "/pkg.Svc/Method"), (1u8, "/S/M?x=1")] {
+            case_request(p, out, "corpus.prefix", &req(o, path, shape));
+        }
+    }
+    // method paths that are no /package.Service/Method (Display for PathAndQuery in the model)
+    for o in ["http://h", "http://h/api", "http://h/api/", "/v1?k=v"] {
+        for path in ODD_PATHS {
+            case_request(p, out, "corpus.odd_path", &req(o, path, 0));
+        }
+    }
+    // the asterisk-form origin and the longest targets http can hold: expect("must form valid path_and_query")
+    case_request(p, out, "corpus.target_limit", &req("*", "/pkg.Svc/Method", 0));
+    for n in [65517usize, 65518, 65519, 65600] {
+        let o = format!("http://h/{}", "a".repeat(n));
+        case_request(p, out, "corpus.target_limit", &req(&o, "/pkg.Svc/Method", 0));
+    }
+    // hand-built requests through the Channel's tower Service
+    for u in ext::RAW_URIS {
+        for (ep, ov) in [("http://h:1234", None), ("http://h/api", Some("https://override.example:99"))] {
+            let rc = ext::RawCase {
+                endpoint: ep.to_string(),
+                origin_override: ov.map(|s: &str| s.to_string()),
+                custom_ua: None,
+                uri: u.to_string(),
+                method: "POST".to_string(),
+                headers: vec![("te".to_string(), b"trailers".to_vec()), ("user-agent".to_string(), b"mine".to_vec())],
+            };
+            ext::case_channel_raw(p, out, "corpus.channel_raw", &rc);
+        }
+    }
+    // F-C04d (fixed, 08dc8d0b): many values of one name; and the limit of http on names
+    for (n, distinct) in [(1usize, false), (24573, false), (24574, false), (30000, false), (24573, true), (24574, true), (24575, true), (24576, true)] {
+        for via_error_item in [true, false] {
+            ext::case_trailers_capacity(p, out, "corpus.F-C04d", n, distinct, via_error_item);
+        }
+    }
+    // the real ProstCodec encoder
+    let plain = Cfg { comp: None, override_disable: false, max: None, bs: None };
+    let m0 = ext::PMsg::default();
+    let m1 = ext::PMsg { name: "tonic".into(), n: 300, blob: vec![0, 255], r: vec![1, 128, 70000], z: -2 };
+    for server in [true, false] {
+        ext::case_prost(p, out, "corpus.prost", server, &plain, &[ext::PEv::Ok(m0.clone()), ext::PEv::Ok(m1.clone())]);
+        ext::case_prost(p, out, "corpus.prost", server, &plain, &[ext::PEv::Ok(m1.clone()), ext::PEv::Pending, ext::PEv::Err(st(9, "stop")), ext::PEv::Ok(m0.clone())]);
+        for e in ENCS {
+            let c = Cfg { comp: Some(e), ..plain.clone() };
+            ext::case_prost(p, out, "corpus.prost", server, &c, &[ext::PEv::Ok(m1.clone()), ext::PEv::Ok(m0.clone()), ext::PEv::Ok(m1.clone())]);
+        }
+        let c = Cfg { max: Some(3), ..plain.clone() };
+        ext::case_prost(p, out, "corpus.prost", server, &c, &[ext::PEv::Ok(m0.clone()), ext::PEv::Ok(m1.clone()), ext::PEv::Ok(m0.clone())]);
+    }
 }
 
 fn replay(p: &mut Pend, out: &mut Out, file: &str) {
     let v: Value = serde_json::from_str(&std::fs::read_to_string(file).unwrap()).unwrap();
     let kind = v["kind"].as_str().unwrap_or("body");
     let inp = &v["input"];
-    if kind.ends_with("body") || (kind.starts_with("corpus.F-") && kind != "corpus.F-C03b") || kind == "corpus.edge" {
+    if kind.ends_with("prost") {
+        ext::replay_prost(p, out, kind, inp);
+    } else if kind.ends_with("channel_raw") {
+        ext::case_channel_raw(p, out, kind, &ext::raw_from_json(inp));
+    } else if kind.ends_with("pq_parse") {
+        ext::case_pq_parse(p, out, kind, &msg_from_json(&inp["s"]));
+    } else if kind == "corpus.F-C04d" {
+        ext::case_trailers_capacity(p, out, kind, inp["n"].as_u64().unwrap() as usize, inp["distinct"].as_bool().unwrap_or(false), inp["via_error_item"].as_bool().unwrap());
+    } else if kind.ends_with("body") || (kind.starts_with("corpus.F-") && kind != "corpus.F-C03b" && kind != "corpus.F-C04d") || kind == "corpus.edge" {
         let cfg = Cfg::from_json(&inp["cfg"]);
         let src: Vec<SEv> = inp["src"].as_array().unwrap().iter().map(sev_from_json).collect();
         case_body(p, out, kind, inp["server"].as_bool().unwrap(), &cfg, &src);
@@ -2016,7 +2135,7 @@ fn replay(p: &mut Pend, out: &mut Out, file: &str) {
             req,
         };
         case_channel(p, out, kind, &cc);
-    } else if kind.ends_with("request") || kind == "corpus.F-C03b" {
+    } else if kind.ends_with("request") || kind == "corpus.F-C03b" || kind == "corpus.prefix" || kind.ends_with("odd_path") || kind == "corpus.target_limit" {
         let rc = ReqCase {
             origin: inp["origin"].as_str().map(|s| s.to_string()),
             path: inp["path"].as_str().unwrap().to_string(),
@@ -2086,12 +2205,34 @@ fn main() {
             let cc = gen_channel(&mut r);
             case_channel(&mut p, &mut out, "channel", &cc);
         }
+        // independent stream for the kinds of audit 2, so that the older kinds keep their inputs
+        let mut r2 = Rng::new(a.seed ^ 0x5eed_c03);
+        for _ in 0..(if a.thorough { 800 } else { 150 }) {
+            let server = r2.chance(3, 5);
+            let mut cfg = gen_cfg(&mut r2, server);
+            let src = ext::gen_prost_src(&mut r2, &mut cfg);
+            ext::case_prost(&mut p, &mut out, "prost", server, &cfg, &src);
+        }
+        for _ in 0..(if a.thorough { 150 } else { 40 }) {
+            let rc = ext::gen_raw(&mut r2);
+            ext::case_channel_raw(&mut p, &mut out, "channel_raw", &rc);
+        }
+        for _ in 0..(if a.thorough { 1_000 } else { 200 }) {
+            let s = ext::gen_pq_string(&mut r2);
+            ext::case_pq_parse(&mut p, &mut out, "lib.pq_parse", &s);
+        }
+        for _ in 0..(if a.thorough { 300 } else { 60 }) {
+            let mut rc = gen_request(&mut r2);
+            rc.path = r2.pick(ODD_PATHS).to_string();
+            case_request(&mut p, &mut out, "request.odd_path", &rc);
+        }
     }
     let dir = a.out.clone();
-    p.flush(&mut out, &dir);
+    let py = p.flush(&mut out, &dir);
     out.finish(
         IMPORTS,
-        "body: EncodeBody::new_server/new_client over a scripted source (0-24 items: messages of boundary sizes around the yield threshold and the limit, codec failures, Err items; Ready/Pending patterns; identity/gzip/deflate/zstd; per-response override; BufferSettings incl. 0), polled to None and 5 more times, non-trivial = >= 2 messages or a failure after >= 1 message; request: client::Grpc over a capturing service for the four call shapes x origins x paths x metadata incl. reserved names, non-trivial = non-default origin, metadata or compression; response: server::Grpc::{unary,client_streaming,server_streaming,streaming} with Ok/Err handlers x negotiated encodings x request grpc-encoding (supported, unsupported => early UNIMPLEMENTED) x missing request message x the per-response override (also on stream responses, where it must be ignored); channel: a real transport::Channel (AddOrigin, UserAgent, hyper h2 client) over an in-memory pipe against a bare h2 peer that records the head and body that arrive. is_end_stream() is read before the first and after every poll of every body. All scripted sources are strict: a poll after they returned None is counted (compared with the model's ghost, oracle: 0) and answered with a poison item or a panic, alternating per case. Every body is judged by oracle/grpc_wire.py. Distinct = distinct (kind, model expression).",
-        json!({"extra_polls": EXTRA_POLLS}),
+        "body: EncodeBody::new_server/new_client over a scripted source (0-24 items: messages of boundary sizes around the yield threshold and the limit, codec failures, Err items; Ready/Pending patterns; identity/gzip/deflate/zstd; per-response override; BufferSettings incl. 0), polled to None and 5 more times, non-trivial = >= 2 messages or a failure after >= 1 message; request: client::Grpc over a capturing service for the four call shapes x origins x paths x metadata incl. reserved names, non-trivial = non-default origin, metadata or compression; response: server::Grpc::{unary,client_streaming,server_streaming,streaming} with Ok/Err handlers x negotiated encodings x request grpc-encoding (supported, unsupported => early UNIMPLEMENTED) x missing request message x the per-response override (also on stream responses, where it must be ignored); channel: a real transport::Channel (AddOrigin, UserAgent, hyper h2 client) over an in-memory pipe against a bare h2 peer that records the head and body that arrive. is_end_stream() is read before the first and after every poll of every body. All scripted sources are strict: a poll after they returned None is counted (compared with the model's ghost, oracle: 0) and answered with a poison item or a panic, alternating per case. Every body is judged by oracle/grpc_wire.py. prost: EncodeBody over the real ProstCodec encoder for a five-field message (string, uint64, bytes, packed repeated uint32, sint32; boundary values), the Python judge parses the protobuf wire format itself and compares fields. corpus.prefix / corpus.odd_path / request.odd_path / corpus.target_limit: origins with a path prefix with and without trailing slash and query, method paths that are no /pkg.Svc/Method (tie only), the asterisk-form origin and targets of 65533..65616 bytes around http's 65534-byte limit (explicit panic outcome). channel_raw: hand-built http::Requests (origin-form, absolute-form, authority-form targets) given to the Channel's tower Service directly (AddOrigin's expect, observed through a panic hook on the worker task). corpus.F-C04d: server streams ending with a status of 1..30000 metadata values of one name / 24573..24576 distinct names. lib.pq_parse: http's PathAndQuery parser against the model's transcription (pool of edge strings, random bytes, lengths around 65534). Distinct = distinct (kind, model expression).",
+        json!({"extra_polls": EXTRA_POLLS, "python_bodies_judged": py.judged,
+               "python_messages_inflated": py.inflated_messages, "python_protobuf_messages_decoded": py.proto_messages}),
     );
 }
